@@ -113,6 +113,10 @@ func VF_C10_Meta() {
 	vf.Assert(err == nil, "C10 GetMetaAndSnapshot succeeds")
 	l2raw, _ := newList(vfBase("other", model.TypeOfDatatype_LIST, "BBBBBBBBBBBBBBBB"), nil, nil)
 	l2 := l2raw.(*list)
+	// the instance that imports may have a history of its own (an import replaces all of it)
+	for i, used := 0, vf.Choice("importer-used", 3); i < used; i++ {
+		_, _ = l2.Insert(0, "old")
+	}
 	vf.Assert(l2.SetMetaAndSnapshot(meta, snap) == nil, "C10 SetMetaAndSnapshot succeeds")
 	vf.Reach("restored")
 	vf.Assert(l2.GetKey() == l.GetKey() && l2.GetDUID() == l.GetDUID() && l2.GetType() == l.GetType(), "C10 meta restored")
